@@ -57,6 +57,8 @@ PARTIALS = {
 }
 ENV = Env(extra=True, loader=DictLoader(PARTIALS))
 ENV.add_tag(ProbeTag)
+from liquid.extra.tags import SnippetTag  # noqa: E402
+ENV.add_tag(SnippetTag)
 ROOT = ENV.from_string("")
 
 # K: one construct around the probe; second field says whether it repeats over xs
